@@ -166,8 +166,13 @@ func GenMinterParams(r *kernel.Rng, genesis time.Time, denom string, cfg MinterG
 				prev = *end
 			}
 		}
+		// the list may be submitted in any order (validation sorts by sequence id)
+		if r.P(0.35) {
+			r.Shuffle(len(minters), func(i, j int) { minters[i], minters[j] = minters[j], minters[i] })
+		}
 		p := mintertypes.Params{MintDenom: denom, StartTime: start, Minters: minters}
-		if err := p.Validate(); err == nil {
+		chk := mintertypes.Params{MintDenom: denom, StartTime: start, Minters: append([]*mintertypes.Minter(nil), minters...)}
+		if err := chk.Validate(); err == nil { // Validate sorts its argument in place: validate a copy, keep the submitted order
 			return p, nil
 		}
 	}
